@@ -250,6 +250,7 @@ def knownGaps : List Gap := [
   ⟨"G06", "counter", "vault", "VaultIDPrefix.maxId"⟩,
   ⟨"G06", "counter", "lend", "LendCounterIDPrefix.lastId"⟩,
   ⟨"G06", "counter", "lend", "BorrowCounterIDPrefix.lastId"⟩,
+  ⟨"G06", "counter", "lend", "PoolIDPrefix.lastId"⟩,   -- reproduced in the depth round (a depreciated pool is deleted by the begin blocker); was S02
   ⟨"G06", "counter", "liquidation", "LockedVaultIDKey.count"⟩,
   ⟨"G06", "counter", "auction", "AuctionIDKey.lastId"⟩,
   ⟨"G06", "counter", "auction", "LendAuctionIDKey.lastId"⟩,
@@ -302,8 +303,7 @@ def suspectedGaps : List Gap := [
   -- one-off main-net refund (hard-coded `comdex1…` recipients, not decodable under the test bech32 prefix)
   ⟨"S01", "store", "collector", "RefundCounterStatusPrefix"⟩,
   ⟨"S01", "counter", "collector", "RefundCounterStatusPrefix.notRestored"⟩,
-  -- recomputed from live records whose deletion (pool depreciation, end of a reward period / gauge) was not driven
-  ⟨"S02", "counter", "lend", "PoolIDPrefix.lastId"⟩,
+  -- recomputed from live records whose deletion (end of a reward period / gauge) was not driven
   ⟨"S02", "counter", "rewards", "ExtRewardsLendIDKey.maxId"⟩,
   ⟨"S02", "counter", "rewards", "GaugeIDKey.maxId"⟩,
   -- setters that can refuse a record, where no refusable record could be produced (a negative fee is never stored, the denoms
